@@ -21,11 +21,17 @@ RULE = ('hosts = {real Linux interpreter, Darwin-shaped tables, scrambled tables
         'reference; distinct = distinct (section, case)')
 QUICK_SHARDS = 1
 THOROUGH_SHARDS = 1
-HOSTS = ('real', 'darwin', 'scrambled')
+HOSTS = ('real', 'darwin', 'scrambled', 'real-hashseed-1', 'real-hashseed-4711')
 
 
 def run_host(host, seed):
     env = dict(os.environ)
+    if host.startswith('real-hashseed-'):
+        # the interpreter's string-hash randomisation is part of the machine too (set / dict iteration order)
+        env['PYTHONHASHSEED'] = host.rsplit('-', 1)[1]
+        env['COLUMNS'] = '40'
+        env['NO_COLOR'] = '1'
+        host = 'real'
     p = subprocess.run([sys.executable, '-m', 'vlib.hostswap', host, str(seed)], env=env, capture_output=True,
                        text=True, timeout=600)
     if p.returncode != 0:
